@@ -88,7 +88,14 @@ def schema_of(p):
     raise CannotInstantiate('schema of ' + op)
 
 
+PLAIN_REFS = [False]
+
+
 def visible(schema):
+    """How expressions above a plan refer to its output columns. The binder refers to computed GROUP BY / DISTINCT keys
+    by repeating the expression (no `ref`), which is what the `distinct` child shape reproduces."""
+    if PLAIN_REFS[0]:
+        return [parse(s) if isinstance(s, str) else s for s in schema]
     return [produced(s) for s in schema]
 
 
@@ -162,6 +169,9 @@ class Instantiator:
             ax['range'] = list(range(len(RANGE_FORMS)))
         if re.search(r'\((hashagg|sortagg) \?keys', txt):
             ax['gkeys'] = ['col', 'uf'] if self.thorough else ['col']
+        if self.rule.applier and self.rule.applier[0] in ('apply_proj', 'column_prune') and '?child' in self.vars:
+            # the child is a plain scan, or a DISTINCT-style aggregation with a computed key (referred to without `ref`)
+            ax['childshape'] = ['scan', 'distinct']
         if re.search(r'\(proj \?\w+', txt):
             # does the opaque projection expression read every input column, or only the first one?
             ax['pjscope'] = ['all', 'narrow'] if (self.thorough or self.rule.applier) else ['all']
@@ -176,6 +186,7 @@ class Instantiator:
     # ---- instantiate
     def instantiate(self, choice):
         self.choice = choice
+        PLAIN_REFS[0] = choice.get('childshape') == 'distinct'
         self.map = {}
         self.tab = {}
         nxt = 0
@@ -255,6 +266,9 @@ class Instantiator:
     def _plan_var(self, v, outer, correlated):
         i = self.tab[v]
         base = scan(i)
+        if v == '?child' and self.choice.get('childshape') == 'distinct':
+            c0, c1 = table_schema(i)
+            base = ['hashagg', ['list', c0, uf('gk', 'I', [c0, c1])], 'list', base]
         sortsrc = self.choice.get('sortsrc')
         for a in self._cond_args('is_orderby'):
             if a[1] == v and sortsrc == 'order':
